@@ -14,7 +14,7 @@ import (
 func init() {
 	Register(&Property{
 		ID: "C19",
-		Explanation: "Decides structural necessary conditions of keep-last-good, never-partial reloads: (R19.1) namespaces parsed from files are published (set) only on the false branch of a non-emptiness test of an error list into which every error of schema.Parse / io.ReadAll of that function is appended, and when a changed file does not parse its previous content is restored or its new entry removed, on every path of the failed branch; (R19.2) in the legacy watcher the entry of a file whose new content does not parse keeps its last parsed namespace (only its raw contents are updated); (R19.3) no namespace manager stores a one-shot stream (io.Reader without Seek/ReadAt) that is read again on a later event; (R19.4) lock discipline and no re-entrant locking in the managers and Config; (R19.5) every read method of a namespace manager answers under its lock; (R19.6) publishing replaces the visible set as a whole (a fresh map), never merges into the live one; (R19.8) in the watchers' event loop every event received reaches a handler call before the loop goes on (no debounce or filter drops a version of a file); (R19.7) for every kind of namespace configuration the value handed to ShouldReload has the dynamic type that the matching manager's ShouldReload compares against, so an unrelated configuration change does not tear down the manager (and with it the last good versions). " +
+		Explanation: "Decides structural necessary conditions of keep-last-good, never-partial reloads: (R19.1) namespaces parsed from files are published (set) only on the false branch of a non-emptiness test of an error list into which every error of schema.Parse / io.ReadAll of that function is appended, and when a changed file does not parse its previous content is restored or its new entry removed, on every path of the failed branch; (R19.2) in the legacy watcher the entry of a file whose new content does not parse keeps its last parsed namespace (only its raw contents are updated); (R19.3) no namespace manager stores a one-shot stream (io.Reader without Seek/ReadAt) that is read again on a later event; (R19.4) lock discipline and no re-entrant locking in the managers and Config; (R19.5) every read method of a namespace manager answers under its lock; (R19.6) publishing replaces the visible set as a whole (a fresh map), never merges into the live one; (R19.10) the change handlers read the event's own reader to the end (no limiting or filtering wrapper); (R19.9) the handler of a watcher error event writes nothing into its manager; (R19.8) in the watchers' event loop every event received reaches a handler call before the loop goes on (no debounce or filter drops a version of a file); (R19.7) for every kind of namespace configuration the value handed to ShouldReload has the dynamic type that the matching manager's ShouldReload compares against, so an unrelated configuration change does not tear down the manager (and with it the last good versions). " +
 			"Not decided: eventual delivery of file events (watcherx, the OS), what is visible between events of different files.",
 		Assumptions: []string{"schema.Parse(\"\") yields no namespaces and no error (read in the parser)"},
 		Run:         runC19,
@@ -38,6 +38,8 @@ func runC19(c *Ctx) {
 	r196(c)
 	r197(c)
 	r198(c)
+	r199(c)
+	r1910(c)
 	_ = p
 }
 
@@ -705,4 +707,130 @@ func r198(c *Ctx) {
 	r.Check(bad == nil, "R19.8", core.FuncName(fn), "every event reaches a handler", pos,
 		"from the receipt of an event every path calls handleChange/handleRemove/handleError (or logs the unknown type) before the loop goes on",
 		"an event can be skipped: the loop goes back to waiting without calling a handler, so that version of the file is never read and nothing re-reads it later")
+}
+
+// ---- R19.9 a watcher error event changes nothing that is served ---------------------------------------
+
+// r199: the event loop hands *watcherx.ErrorEvent (the file could not be read
+// when the change was noticed) to the handler's error method. Keep-last-good
+// means that method only reports: it stores nothing into the manager and
+// deletes nothing from it.
+func r199(c *Ctx) {
+	p, r := c.P, c.R
+	loop := p.Func("internal/driver/config.startEventHandler")
+	if loop == nil {
+		r.Undecide("R19.9", "", "anchor startEventHandler", "", "not found")
+		return
+	}
+	// the interface method called with the ErrorEvent
+	var meth *types.Func
+	core.Instrs(loop, func(_ *ssa.BasicBlock, _ int, ins ssa.Instruction) {
+		ci, ok := ins.(ssa.CallInstruction)
+		if !ok || !ci.Common().IsInvoke() || len(ci.Common().Args) != 1 {
+			return
+		}
+		if pt, ok := ci.Common().Args[0].Type().Underlying().(*types.Pointer); ok && core.NamedOf(pt.Elem()) != nil && core.NamedOf(pt.Elem()).Obj().Name() == "ErrorEvent" {
+			meth = ci.Common().Method
+		}
+	})
+	if meth == nil {
+		r.Undecide("R19.9", core.FuncName(loop), "error-event dispatch", p.Pos(loop.Pos()), "no interface call that receives *watcherx.ErrorEvent found")
+		return
+	}
+	n := 0
+	for _, impl := range p.KG().Implementers(meth) {
+		if pk := core.FuncPkg(impl); pk == nil || !core.IsKeto(pk) || impl.Blocks == nil {
+			continue
+		}
+		n++
+		var bad []string
+		recv := impl.Params[0]
+		core.Instrs(impl, func(_ *ssa.BasicBlock, _ int, ins ssa.Instruction) {
+			rooted := func(v ssa.Value) bool {
+				for i := 0; i < 6 && v != nil; i++ {
+					switch x := v.(type) {
+					case *ssa.FieldAddr:
+						v = x.X
+					case *ssa.IndexAddr:
+						v = x.X
+					case *ssa.UnOp:
+						v = x.X
+					case *ssa.Parameter:
+						return x == recv
+					default:
+						return false
+					}
+				}
+				return false
+			}
+			switch x := ins.(type) {
+			case *ssa.Store:
+				if rooted(x.Addr) {
+					bad = append(bad, "store at "+p.Pos(x.Pos()))
+				}
+			case *ssa.MapUpdate:
+				if rooted(x.Map) {
+					bad = append(bad, "map update at "+p.Pos(x.Pos()))
+				}
+			case *ssa.Call:
+				if bi, ok := x.Call.Value.(*ssa.Builtin); ok && bi.Name() == "delete" && rooted(x.Call.Args[0]) {
+					bad = append(bad, "delete at "+p.Pos(x.Pos()))
+				}
+			}
+		})
+		r.Check(len(bad) == 0, "R19.9", core.FuncName(impl), "error event leaves the served state alone", p.Pos(impl.Pos()),
+			"the error handler writes nothing into its manager", strings.Join(bad, "; ")+": a read fault at notification time removes or replaces what was served, instead of keeping the last valid version")
+	}
+	if n < 2 {
+		r.Undecide("R19.9", "", "error-event handlers", "", fmt.Sprintf("%d implementations found (floor 2)", n))
+	}
+}
+
+// ---- R19.10 a changed file is read whole ---------------------------------------------------------------
+
+// r1910: what io.ReadAll reads in the change handlers is the event's own
+// reader. A wrapper that limits or filters it (io.LimitReader, a scanner)
+// makes the watcher parse a prefix of the new version: a class boundary in the
+// prefix publishes part of a version, a cut inside a class rejects a valid one.
+func r1910(c *Ctx) {
+	p, r := c.P, c.R
+	n := 0
+	for _, fn := range p.KetoFuncs(cfgRel) {
+		core.Instrs(fn, func(_ *ssa.BasicBlock, _ int, ins ssa.Instruction) {
+			call, ok := ins.(*ssa.Call)
+			if !ok {
+				return
+			}
+			obj := core.CalleeObj(&call.Call)
+			if obj == nil || obj.Pkg() == nil || obj.Pkg().Path() != "io" || obj.Name() != "ReadAll" {
+				return
+			}
+			n++
+			src := core.ValueOrigin(call.Call.Args[0])
+			okSrc, what := false, fmt.Sprintf("%T", src)
+			switch x := src.(type) {
+			case *ssa.Call:
+				if x.Call.IsInvoke() && x.Call.Method.Name() == "Reader" {
+					okSrc = true
+				} else if o2 := core.CalleeObj(&x.Call); o2 != nil {
+					what = core.ObjName(o2)
+					if o2.Name() == "Reader" || o2.Name() == "NewReader" || o2.Name() == "Open" {
+						okSrc = true
+					}
+				}
+			case *ssa.Parameter:
+				okSrc = true // a reader handed in by the caller (judged at the call site)
+			case *ssa.MakeInterface:
+				okSrc = true // a concrete reader (bytes.Reader, *os.File)
+			case *ssa.Extract:
+				okSrc = true // os.Open result
+			}
+			r.Check(okSrc, "R19.10", core.FuncName(fn), "whole file read", p.Pos(call.Pos()),
+				"io.ReadAll reads the event's / file's own reader",
+				"io.ReadAll reads through "+what+", not the event's reader itself: a limited or filtered reader hands the parser a prefix of the new version")
+		})
+	}
+	if n < 2 {
+		r.Undecide("R19.10", "", "io.ReadAll in the configuration watchers", "", fmt.Sprintf("%d found (floor 2)", n))
+	}
 }
